@@ -1165,3 +1165,59 @@ func (c *Ctx) hostedBy(f, want *ssa.Function) bool {
 	}
 	return f == want
 }
+
+// rulesC05topo: the resolver's Require topology (the order of Enters/Exits
+// and of the target states) is rebuilt from the NEW schema.
+func (c *Ctx) rulesC05topo() {
+	c.rule("C05.topo", "RelationsResolver.NewSchema — which rebuilds the Require topology used to order handlers, reading the machine's schema — is called only after Machine.schema and the state names have been replaced: in every function that stores Machine.schema, each such store and each verifyStates call strictly precedes a NewSchema call, and no NewSchema call precedes them")
+	fS := c.field(pm, "Machine", "schema")
+	if fS == nil {
+		return
+	}
+	n := 0
+	for _, f := range c.Funcs {
+		if topFunc(f).Pkg == nil || relPkg(topFunc(f).Pkg.Pkg.Path()) != pm {
+			continue
+		}
+		var stores []ssa.Instruction
+		for _, w := range writesOfFieldIn(f, fS) {
+			if w.Kind == "assign" {
+				stores = append(stores, w.Instr)
+			}
+		}
+		if len(stores) == 0 {
+			continue
+		}
+		sites := c.sitesIn(f, "iface:RelationsResolver.NewSchema")
+		sites = append(sites, c.sitesIn(f, pm+":DefaultRelationsResolver.NewSchema")...)
+		if len(sites) == 0 {
+			// a struct literal / constructor helper without a resolver yet is fine only if the
+			// function is not an API entry (e.g. composite literal in New before resolver exists)
+			continue
+		}
+		n++
+		pre := append([]ssa.Instruction{}, stores...)
+		for _, v := range c.sitesIn(f, pm+":Machine.verifyStates") {
+			pre = append(pre, v)
+		}
+		good, why := true, ""
+		for _, p := range pre {
+			after := false
+			for _, s := range sites {
+				if canReach(s, p) {
+					good, why = false, "a NewSchema call ("+c.pos(s.Pos())+") can run before the schema / state names are replaced ("+c.pos(p.Pos())+"): the topology is built from the previous schema and lags one version behind"
+				}
+				if canReach(p, s) {
+					after = true
+				}
+			}
+			if !after {
+				good, why = false, "no NewSchema call follows the replacement at "+c.pos(p.Pos())
+			}
+		}
+		c.check(good, "C05.topo", funcKey(f)+" notifies the resolver after replacing the schema", f.Pos(), why)
+	}
+	if n < 2 {
+		c.undecided(fmt.Sprintf("C05.topo: only %d functions replace the schema and notify the resolver (New and SetSchema expected)", n))
+	}
+}
